@@ -54,7 +54,9 @@ FAM = L.Record('struct', 'fam', [L.Member('n', L.INT), L.Member('h', L.SHORT), L
 FL = L.Record('struct', 'fl', [L.Member('f', L.FLOAT), L.Member('d', L.DOUBLE), L.Member('b', L.BOOL), L.Member('l', L.LONG)])
 SP = L.Record('struct', 'sp', [L.Member('p', L.INTPTR), L.Member('s', L.CHARPTR), L.Member('f', L.FUNCPTR), L.Member('t', L.Array(L.CHAR, 4))])
 GS = L.Record('struct', 'gs', [L.Member('a', L.CHAR), L.Member('c', L.INT)])
-RECORDS = [S1, S2, SS, U, SU, SA, BF, BF2, BF3, BF4, FAM, FL, SP, GS]
+AL16 = L.Record('struct', 'al16', [L.Member('c', L.CHAR), L.Member('m', L.INT, alignas=16, alignas_spelling='_Alignas(16)'), L.Member('k', L.INT)])
+AL32 = L.Record('struct', 'al32', [L.Member('a', L.SHORT), L.Member('b', L.Array(L.CHAR, 3), alignas=32, alignas_spelling='_Alignas(32)'), L.Member('z', L.CHAR)])
+RECORDS = [S1, S2, SS, U, SU, SA, BF, BF2, BF3, BF4, FAM, FL, SP, GS, AL16, AL32]
 
 # value makers: k = position of the value in the initialiser text -> (C text, semantic value)
 #   semantic: ('int', n) | ('sym', name, addend, pointer type) | ('strp', bytes, addend)
@@ -124,6 +126,8 @@ TYPES = [
     OT('bf2', BF2, makers=(v_small,), kind='bitfield'),
     OT('bf3', BF3, makers=(v_small,), kind='bitfield'),
     OT('bf4', BF4, makers=(v_neg,), kind='bitfield'),
+    OT('al16', AL16, kind='overaligned'),
+    OT('al32', AL32, strings=(3,), kind='overaligned'),
     OT('fam', FAM, strings=(1,), kind='flexible'),
     OT('s2x2', L.Array(S2, 2), kind='struct'),
     OT('s2xN', L.Array(S2, None), kind='struct'),
